@@ -4,6 +4,8 @@ CONSTANTS Table <- McTable
  Heavy <- McHeavy
  Probe <- McProbe
  MaxIn <- McMaxIn1
+ Dirs <- BothDirs
+ CrossProbe = FALSE
  MaxConns = 1
  ProbeAfter = 0
  MaxFrameK = 25600
